@@ -284,11 +284,13 @@ fn check(prop: &str, tier: &str) -> i32 {
         // Watchdog: a worker that exceeds the deadline is killed (machinery failure).
         let deadline = std::time::Instant::now() + std::time::Duration::from_secs(if tier == "quick" { 240 } else { 4 * 3600 });
         for (out, mut child) in children {
+            let mut killed = false;
             loop {
                 match child.try_wait() {
                     Ok(Some(_)) => break,
                     Ok(None) if std::time::Instant::now() > deadline => {
                         let _ = child.kill();
+                        killed = true;
                         let crumb = breadcrumb::read(&format!("{out}.crumb"));
                         machinery.push(format!("worker for harness {} exceeded the time limit and was killed (last history: {crumb:?})", h.name));
                         break;
@@ -298,6 +300,9 @@ fn check(prop: &str, tier: &str) -> i32 {
                 }
             }
             let res = child.wait_with_output().expect("waiting for worker");
+            if killed {
+                continue;
+            }
             if !res.status.success() {
                 use std::os::unix::process::ExitStatusExt;
                 let crumb = breadcrumb::read(&format!("{out}.crumb"));
